@@ -86,8 +86,20 @@ func checkC06(c *Ctx) {
 					bad = "randomness (" + d.Pkg + "." + d.Name + ")"
 				case d.Pkg == "os" && (strings.HasPrefix(d.Name, "Getenv") || d.Name == "LookupEnv" || d.Name == "ReadFile" || d.Name == "Open" || d.Name == "Hostname" || d.Name == "Getpid"):
 					bad = "process environment (os." + d.Name + ")"
-				case d.Pkg == "runtime" && (d.Name == "NumGoroutine" || d.Name == "NumCPU" || d.Name == "GC"):
+				case d.Pkg == "runtime" && (d.Name == "NumGoroutine" || d.Name == "NumCPU" || d.Name == "GC" || d.Name == "Stack" || d.Name == "Caller" || d.Name == "Callers"):
 					bad = "runtime state (runtime." + d.Name + ")"
+				case d.Pkg == "runtime/debug" && (d.Name == "Stack" || d.Name == "PrintStack" || d.Name == "ReadBuildInfo"):
+					bad = "runtime state (debug." + d.Name + ": goroutine ids and addresses)"
+				case d.Pkg == "time" && d.Recv == "Time" && (d.Name == "Format" || d.Name == "String" || d.Name == "Local" || d.Name == "Zone" || d.Name == "AppendFormat"):
+					// a time built by time.Unix is in the host's local zone: its text differs between hosts unless it
+					// is converted with UTC() / In() first
+					args := x.Common().Args
+					if len(args) > 0 {
+						l := c.P.Leaves(args[0], ana.PVOpt{})
+						if l.HasOp("Unix") && !l.HasOp("Time.UTC") && !l.HasOp("Time.In") {
+							bad = "host time zone (" + d.Name + " of a time.Unix value without UTC())"
+						}
+					}
 				}
 				if bad != "" {
 					nSrc++
